@@ -59,7 +59,7 @@ type bucketObjectIterator struct {
 }
 
 func (b *bucketObjectIterator) Seek(key gofakes3.VersionID) bool {
-	if b.iter.Seek(key) {
+	if b.iter != nil && b.iter.Seek(key) {
 		return true
 	}
 
